@@ -1153,9 +1153,10 @@ package astits
 //@   at call (*Muxer).retransmitTables#0 assert [C17] force: $force == (d.AdaptationField != nil && d.AdaptationField.RandomAccessIndicator && d.PID == m.pmt.PCRPID)
 //@   at call (*Muxer).retransmitTables#0 assert [C17] first: wN(m.bitsWriter) == old(wN(m.bitsWriter))
 //@   at call writePESData#0 assert [C04,C12] hdronce: $isPayloadStart == (bytesWritten == atentry(bytesWritten))
-//@   at call writePacket#0 assert [C04] fills: 4 + ite($p.Header.HasAdaptationField, afBytes($p.AdaptationField), 0) + len($p.Payload) == 188
-//@   at call writePacket#0 assert [C04] pusi: $p.Header.HasPayload && $p.Header.PayloadUnitStartIndicator == (bytesWritten == atentry(bytesWritten))
-//@   at call writePacket#0 assert [C05] ccfresh: $p.Header.ContinuityCounter == u8(ctx.cc.value) && ctx.cc.value <= 15 && $p.Header.PID == d.PID
+//@   at call writePacket#* assert [C04] fills: 4 + ite($p.Header.HasAdaptationField, afBytes($p.AdaptationField), 0) + len($p.Payload) == 188
+//@   at call writePacket#* assert [C04,C05] haspayload: $p.Header.HasPayload
+//@   at call writePacket#0 assert [C04] pusi: $p.Header.PayloadUnitStartIndicator == (bytesWritten == atentry(bytesWritten))
+//@   at call writePacket#* assert [C05] ccfresh: $p.Header.ContinuityCounter == u8(ctx.cc.value) && ctx.cc.value <= 15 && $p.Header.PID == d.PID
 //@   loop 0 assert [C05] ccstep: (bytesWritten == pre(bytesWritten) || bytesWritten == pre(bytesWritten) + 188) && ctx.cc.value == ite(bytesWritten == pre(bytesWritten), pre(ctx.cc.value), ite(pre(ctx.cc.value) + 1 > 15, 0, pre(ctx.cc.value) + 1))
 //@   ensures [C05] ccidle: result1 == nil && wN(m.bitsWriter) == old(wN(m.bitsWriter)) && has(m.esContexts, u32(d.PID)) ==> m.esContexts[u32(d.PID)].cc.value == old(m.esContexts[u32(d.PID)].cc.value)
 //@   ensures [C04,C17] unknownpid: !has(m.esContexts, u32(d.PID)) ==> result0 == 0 && result1 == ErrPIDNotFound && wN(m.bitsWriter) == old(wN(m.bitsWriter)) && m.tablesRetransmitCounter == old(m.tablesRetransmitCounter)
